@@ -86,7 +86,22 @@ def _history_line(history, defaults):
                       '|'.join('%s=%s' % (enc(a), v) for a, v in sorted(SAT.items()))] + [enc_step(s) for s in history])
 
 
+
+MODULE_CASES = [
+    # (first doctest, second doctest, failed callnames, n_skipped, extra default options)
+    (['>>> print(1)', '1', '>>> # xdoctest: +SKIP', '>>> print(2)'], ['>>> print(3)', 'not three'], ['second'], 0, None),
+    (['>>> # xdoctest: +REQUIRES(--xdocverif-unmet-a)', '>>> print(2)'], ['>>> print(3)', 'not three'], ['second'], 1, None),
+    (['>>> # xdoctest: -SKIP', '>>> print(2)', '2'], ['>>> print(3)', 'not three'], [], 1, {'SKIP': True}),
+    (['>>> # xdoctest: +SKIP', '>>> print(2)'], ['>>> print(3)', '3'], [], 1, None),
+]
+
+
+def module_level(ctx, corr):
+    common.module_level_cases(ctx, corr, 'module-level', MODULE_CASES)
+
+
 def correspondence(ctx, corr):
+    module_level(ctx, corr)
     import os
     os.environ['XDOCVERIF_MET'] = '1'
     from xdoctest import directive
@@ -228,4 +243,6 @@ def replay(ctx, failing):
     if failing.get('kind') == 'law':
         print('law %s on input %r: observed %r' % (failing.get('law'), failing['input'], failing.get('observed')))
         return True
+    if 'module_source' in failing.get('input', {}):
+        return common.replay_module_level(ctx, failing, 'module-level', MODULE_CASES)
     return common.replay_scenario(failing)
